@@ -128,9 +128,8 @@ def seq(ctx):
         R.check(v == ['(new_seq - self._last_acked_tx_seq) % self.MAX_SEQ_NUM'], rule, f'{ERTM}._update_ack_seq | acked count', 'acked = (req_seq - last_acked) mod MAX_SEQ_NUM', f'num_frames_acked = {v}', p.loc(upd))
 
 
-def window(ctx):
+def window(ctx, rule='C08.window'):
     R, p = ctx.r, ctx.p
-    rule = 'C08.window'
     ci = p.cls(ERTM)
     if ci is None:
         R.bad(rule, ERTM, f'anchor missing: {ERTM}')
